@@ -456,3 +456,75 @@ def client_call(w, label, fn, *a, **kw):
         w.messages.append((step, 'client-error', '%s: %s' % (type(e).__name__, e)))
     w.trace.append(ent)
     return r
+
+
+# ---------------------------------------------------------------------------------------------- TTLV tree surgery
+def ttlv_parse(data):
+    """bytes -> [[tag, type, value]]; value = child list for a Structure, raw unpadded bytes otherwise."""
+    out = []
+    pos = 0
+    while pos + 8 <= len(data):
+        tag = int.from_bytes(data[pos:pos + 3], 'big')
+        typ = data[pos + 3]
+        n = struct.unpack('!I', data[pos + 4:pos + 8])[0]
+        body = data[pos + 8:pos + 8 + n]
+        if typ == 1:
+            out.append([tag, typ, ttlv_parse(body)])
+            pos += 8 + n
+        else:
+            out.append([tag, typ, body])
+            pos += 8 + n + ((8 - n % 8) % 8)
+    return out
+
+
+def ttlv_build(nodes):
+    out = b''
+    for tag, typ, val in nodes:
+        if isinstance(val, list):
+            body = ttlv_build(val)
+            pad = b''
+        else:
+            body = bytes(val)
+            pad = b'' if typ == 1 else b'\x00' * ((8 - len(body) % 8) % 8)
+        out += tag.to_bytes(3, 'big') + bytes([typ]) + struct.pack('!I', len(body)) + body + pad
+    return out
+
+
+def ttlv_paths(nodes, prefix=()):
+    """Every node position as a tuple of child indices, depth first."""
+    for i, (tag, typ, val) in enumerate(nodes):
+        yield prefix + (i,)
+        if isinstance(val, list):
+            for p in ttlv_paths(val, prefix + (i,)):
+                yield p
+
+
+def ttlv_get(nodes, path):
+    cur = nodes
+    node = None
+    for i in path:
+        node = cur[i]
+        cur = node[2] if isinstance(node[2], list) else []
+    return node
+
+
+def ttlv_siblings(nodes, path):
+    cur = nodes
+    for i in path[:-1]:
+        cur = cur[i][2]
+    return cur
+
+
+class CutLoopback(Loopback):
+    """Loop-back socket that delivers only the first `cut` bytes of the response, then reports the peer closed."""
+
+    def __init__(self, w, cut):
+        Loopback.__init__(self, w)
+        self.cut = cut
+        self.full = 0
+
+    def recv(self, n):
+        if self.full == 0:
+            self.full = len(self.outbuf)
+            self.outbuf = self.outbuf[:self.cut]
+        return Loopback.recv(self, n)
